@@ -35,9 +35,10 @@ pub enum F0 {
     GetReceiveSender,
     GetReceiveOwner,
     GetSlotTime,
+    GetInitOrigin,
 }
 
-pub const ALL0: [F0; 19] = [F0::Accept, F0::SimpleTransfer, F0::Send, F0::CombineAnd, F0::CombineOr, F0::GetParameterSize, F0::GetParameterSection, F0::GetPolicySection, F0::LogEvent, F0::LoadState, F0::WriteState, F0::ResizeState, F0::StateSize, F0::GetReceiveInvoker, F0::GetReceiveSelfAddress, F0::GetReceiveSelfBalance, F0::GetReceiveSender, F0::GetReceiveOwner, F0::GetSlotTime];
+pub const ALL0: [F0; 20] = [F0::Accept, F0::SimpleTransfer, F0::Send, F0::CombineAnd, F0::CombineOr, F0::GetParameterSize, F0::GetParameterSection, F0::GetPolicySection, F0::LogEvent, F0::LoadState, F0::WriteState, F0::ResizeState, F0::StateSize, F0::GetReceiveInvoker, F0::GetReceiveSelfAddress, F0::GetReceiveSelfBalance, F0::GetReceiveSender, F0::GetReceiveOwner, F0::GetSlotTime, F0::GetInitOrigin];
 
 fn sig0(f: F0) -> (&'static str, &'static [bool], Option<bool>) {
     match f {
@@ -60,6 +61,7 @@ fn sig0(f: F0) -> (&'static str, &'static [bool], Option<bool>) {
         F0::GetReceiveSender => ("get_receive_sender", &[false], None),
         F0::GetReceiveOwner => ("get_receive_owner", &[false], None),
         F0::GetSlotTime => ("get_slot_time", &[], Some(true)),
+        F0::GetInitOrigin => ("get_init_origin", &[false], None),
     }
 }
 
@@ -112,13 +114,15 @@ struct Ctx0 {
     self_balance: u64,
     sender:       Vec<u8>,
     owner:        [u8; 32],
+    /// the init function is run: empty state, no actions, no receive context
+    init:         bool,
 }
 
 fn ctx0(limit: bool) -> Ctx0 {
     let mut sender = vec![1u8];
     sender.extend_from_slice(&5u64.to_le_bytes());
     sender.extend_from_slice(&6u64.to_le_bytes());
-    Ctx0 { limit, max_param: if limit { 1024 } else { 65535 }, parameter: vec![9, 8, 7, 6, 5], policy: (100..112).collect(), slot_time: 0x0102_0304_0506, invoker: [0x11; 32], self_address: (77, 3), self_balance: 123_456_789, sender, owner: [0x22; 32] }
+    Ctx0 { limit, max_param: if limit { 1024 } else { 65535 }, parameter: vec![9, 8, 7, 6, 5], policy: (100..112).collect(), slot_time: 0x0102_0304_0506, invoker: [0x11; 32], self_address: (77, 3), self_balance: 123_456_789, sender, owner: [0x22; 32], init: false }
 }
 
 fn initial_state0() -> Vec<u8> { (0..20u8).map(|i| 0x40 + i).collect() }
@@ -148,6 +152,10 @@ impl Model0 {
     }
 
     fn call(&mut self, f: F0, a: &[u64]) -> (Step0, u128) {
+        let receive_only = matches!(f, F0::Accept | F0::SimpleTransfer | F0::Send | F0::CombineAnd | F0::CombineOr | F0::GetReceiveInvoker | F0::GetReceiveSelfAddress | F0::GetReceiveSelfBalance | F0::GetReceiveSender | F0::GetReceiveOwner);
+        if (self.ctx.init && receive_only) || (!self.ctx.init && f == F0::GetInitOrigin) {
+            return (Step0::Trap, 0);
+        }
         let a32 = |i: usize| a[i] as u32;
         let mut cost = 0u128;
         let mut trap = false;
@@ -285,10 +293,10 @@ impl Model0 {
                 }
             }
             F0::StateSize => ret = Some(self.state.len() as u64),
-            F0::GetReceiveInvoker | F0::GetReceiveOwner => {
+            F0::GetReceiveInvoker | F0::GetReceiveOwner | F0::GetInitOrigin => {
                 let r = rng!(a32(0), 32);
                 if !trap {
-                    let src = if f == F0::GetReceiveInvoker { self.ctx.invoker } else { self.ctx.owner };
+                    let src = if f == F0::GetReceiveInvoker { self.ctx.invoker } else if f == F0::GetInitOrigin { [0x33; 32] } else { self.ctx.owner };
                     self.mem[r].copy_from_slice(&src);
                 }
             }
@@ -332,7 +340,7 @@ fn short(o: &Outcome0) -> String {
 
 /// The epilogue dumps the observation windows into logs (scratch, last 16 bytes, results)
 /// and returns the index of a final `accept`.
-fn with_epilogue(script: &Script0, pages: usize) -> Script0 {
+fn with_epilogue(script: &Script0, pages: usize, init: bool) -> Script0 {
     let mut s = script.clone();
     s.push(Call0 { f: F0::LogEvent, args: vec![Arg::C(SCRATCH as u64), Arg::C(0x100)] });
     s.push(Call0 { f: F0::LogEvent, args: vec![Arg::C(TAIL as u64), Arg::C(16)] });
@@ -341,11 +349,13 @@ fn with_epilogue(script: &Script0, pages: usize) -> Script0 {
         s.push(Call0 { f: F0::LogEvent, args: vec![Arg::C(0x1FFF0), Arg::C(16)] });
     }
     s.push(Call0 { f: F0::LogEvent, args: vec![Arg::C(RES as u64), Arg::C(8 * script.len() as u64)] });
-    s.push(Call0 { f: F0::Accept, args: vec![] });
+    if !init {
+        s.push(Call0 { f: F0::Accept, args: vec![] });
+    }
     s
 }
 
-fn module_of(full: &Script0, mem: &[u8]) -> Vec<u8> {
+fn module_of(full: &Script0, mem: &[u8], init: bool) -> Vec<u8> {
     let mut m = Module::default();
     let ty_index = |m: &mut Module, t: FuncType| -> u32 {
         if let Some(i) = m.types.iter().position(|x| *x == t) {
@@ -397,9 +407,13 @@ fn module_of(full: &Script0, mem: &[u8]) -> Vec<u8> {
         body.push(Instr::LocalGet(1));
         body.push(Instr::Store(0x37, 3, 0));
     }
-    // return the result of the final accept
-    body.push(Instr::LocalGet(1));
-    body.push(Instr::Num(0xA7));
+    // return the result of the final accept (receive) / success (init)
+    if init {
+        body.push(Instr::I32Const(0));
+    } else {
+        body.push(Instr::LocalGet(1));
+        body.push(Instr::Num(0xA7));
+    }
     m.funcs.push(Func { ty: entry_ty, locals: vec![VT::I64], body });
     let pages = (mem.len() / MEM) as u32;
     m.memory = Some((pages, Some(pages)));
@@ -418,6 +432,16 @@ fn run_real(wasm: &[u8], c: &Ctx0, budget: u64) -> Result<(Outcome0, Option<u64>
     let policy = c.policy.clone();
     let rc: v0::ReceiveContext<&[u8]> = v0::ReceiveContext { metadata: ChainMetadata { slot_time: Timestamp::from_timestamp_millis(c.slot_time) }, invoker: AccountAddress(c.invoker), self_address: ContractAddress::new(c.self_address.0, c.self_address.1), self_balance: Amount::from_micro_ccd(c.self_balance), sender: Address::Contract(ContractAddress::new(5, 6)), owner: AccountAddress(c.owner), sender_policies: &policy[..] };
     mc_core::set_dirty_limit(2 * MEM);
+    if c.init {
+        let ictx: v0::InitContext<&[u8]> = v0::InitContext { metadata: ChainMetadata { slot_time: Timestamp::from_timestamp_millis(c.slot_time) }, init_origin: AccountAddress([0x33; 32]), sender_policies: &policy[..] };
+        let inv = v0::InitInvocation { amount: 0, init_name: "init_c", parameter: concordium_contracts_common::Parameter::new_unchecked(&c.parameter[..]), energy: InterpreterEnergy::new(budget) };
+        return match v0::invoke_init(&artifact, ictx, inv, c.limit) {
+            Err(_) => Ok((Outcome0::Trap, None)),
+            Ok(v0::InitResult::OutOfEnergy) => Ok((Outcome0::OutOfEnergy, None)),
+            Ok(v0::InitResult::Reject { reason, remaining_energy }) => Ok((Outcome0::Reject(reason), Some(remaining_energy.energy))),
+            Ok(v0::InitResult::Success { state, logs, remaining_energy }) => Ok((Outcome0::Success { state: state.state, logs: logs.iterate().cloned().collect(), actions: vec![] }, Some(remaining_energy.energy))),
+        };
+    }
     let inv = v0::ReceiveInvocation { amount: 0, receive_name: "c.run", parameter: concordium_contracts_common::Parameter::new_unchecked(&c.parameter[..]), energy: InterpreterEnergy::new(budget) };
     let st = initial_state0();
     match v0::invoke_receive(&artifact, rc, inv, &st[..], c.max_param, c.limit) {
@@ -441,7 +465,7 @@ fn run_real(wasm: &[u8], c: &Ctx0, budget: u64) -> Result<(Outcome0, Option<u64>
 }
 
 fn expect(full: &Script0, c: &Ctx0, mem0: &[u8]) -> (Vec<Outcome0>, u128) {
-    let mut m = Model0 { mem: mem0.to_vec(), ctx: c.clone(), state: initial_state0(), logs: vec![], actions: vec![], cost: 0 };
+    let mut m = Model0 { mem: mem0.to_vec(), ctx: c.clone(), state: if c.init { vec![] } else { initial_state0() }, logs: vec![], actions: vec![], cost: 0 };
     let mut results: Vec<u64> = vec![];
     let mut allowed = vec![];
     for call in full {
@@ -507,11 +531,14 @@ fn check_script(report: &Report, script: &Script0, c: &Ctx0, mem0: &[u8], energy
         if mem0.len() != MEM {
             j["memory_pages"] = json!(mem0.len() / MEM);
         }
+        if c.init {
+            j["entrypoint"] = json!("init");
+        }
         j
     };
-    let full = with_epilogue(script, mem0.len() / MEM);
+    let full = with_epilogue(script, mem0.len() / MEM, c.init);
     let (allowed, model_cost) = expect(&full, c, mem0);
-    let wasm = module_of(&full, mem0);
+    let wasm = module_of(&full, mem0, c.init);
     let (real, remaining) = match mc_core::catch(|| run_real(&wasm, c, BUDGET)) {
         Ok(Ok(r)) => r,
         Ok(Err(msg)) => {
@@ -586,7 +613,7 @@ fn arg_lists(f: F0, full: bool) -> Vec<Vec<Arg>> {
         F0::GetParameterSection | F0::GetPolicySection | F0::LoadState | F0::WriteState => vec![ptr, len, off],
         F0::LogEvent => vec![ptr, len],
         F0::ResizeState => vec![if full { cs(&[0, 1, 19, 20, 21, 16383, 16384, 16385, 0x7FFF_FFFF, 0xFFFF_FFFF]) } else { cs(&[3, 16385]) }],
-        F0::GetReceiveInvoker | F0::GetReceiveSelfAddress | F0::GetReceiveSender | F0::GetReceiveOwner => vec![ptr],
+        F0::GetReceiveInvoker | F0::GetReceiveSelfAddress | F0::GetReceiveSender | F0::GetReceiveOwner | F0::GetInitOrigin => vec![ptr],
     };
     product(&lists)
 }
@@ -641,6 +668,35 @@ pub fn run_v0(report: &Report, tier: Tier, mem_v1: &[u8]) {
     }
     report.set_extra("v0_context_cases", json!(special.len()));
     special.par_iter().for_each(|(limit, s)| check_script(report, s, &ctx0(*limit), &mem0, true));
+    // the init entrypoint: empty state, no actions; receive-only functions must fail
+    let mut init_cases: Vec<(bool, Script0)> = vec![];
+    let prefix_init = vec![c(F0::WriteState, &[SRC as u64, 20, 0])];
+    for f in ALL0 {
+        let lists = arg_lists(f, true);
+        let stride = if quick { lists.len().div_ceil(4_000).max(1) } else { 1 };
+        for (i, args) in lists.into_iter().enumerate() {
+            if i % stride != 0 {
+                continue;
+            }
+            let mut s = prefix_init.clone();
+            s.push(Call0 { f, args });
+            init_cases.push((true, s));
+        }
+    }
+    for limit in [true, false] {
+        for (len, off) in [(16384u64, 0u64), (16385, 0), (2, 16383), (1, 16384)] {
+            init_cases.push((limit, vec![c(F0::ResizeState, &[16384]), c(F0::WriteState, &[0, len, off]), c(F0::StateSize, &[])]));
+        }
+        for n in [64usize, 65] {
+            init_cases.push((limit, (0..n).map(|i| c(F0::LogEvent, &[SRC as u64, (i % 5) as u64])).collect()));
+        }
+    }
+    report.set_extra("v0_init_cases", json!(init_cases.len()));
+    init_cases.par_iter().enumerate().for_each(|(i, (limit, s))| {
+        let mut cx = ctx0(*limit);
+        cx.init = true;
+        check_script(report, s, &cx, &mem0, i % 16 == 0)
+    });
     // contracts with two pages of memory: the bounds are at 128 KiB
     let mut mem2 = mem0.clone();
     mem2.resize(2 * MEM, 0);
